@@ -64,6 +64,7 @@ class TofuWorld:
         self.fail_mode = {}       # (h, p) -> None | 'close' | 'rst' | 'stall'
         self.redirect_spelling = {}   # (h, p) -> host spelling used in the 3x target
         self.speak_first = {}     # (h, p) -> True: TLS 1.2 server that answers before any request
+        self.redirect_seq = {}    # (h, p) -> [target | None, ...] for its next connections (overrides redirect)
         self.records = []
         self.use_ec = False
         self.cut = 0
@@ -73,6 +74,9 @@ class TofuWorld:
         def beh(idx, server):
             h, p = key
             tgt = self.redirect.get(key)
+            seq = self.redirect_seq.get(key)
+            if seq:
+                tgt = seq.pop(0)
 
             def respond(peer):
                 line = bytes(peer.rx_plain).split(b"\r\n")[0]
